@@ -510,6 +510,7 @@ func (e *Enc) encodeTop(fn *ssa.Function, spec *FuncSpec, caseIdx int) {
 	}
 	e.h0 = h0
 	e.hints = spec.Hints
+	e.opaqueMul = spec.OpaqueMul
 	e.setupLocks(spec)
 	fr := e.newFrame(fn, nil, params, h0)
 	fr.isTop = true
@@ -757,7 +758,12 @@ func (e *Enc) discharge0(o *Obl, fkey string, opts *VerifyOpts) *OblResult {
 		// the query goes out without the (large) get-value request; only a sat answer is asked again for its model
 		// first attempt: recursive spec functions the goal does not mention are left uninterpreted
 		writeFile(f, e.buildQueryX(o, extra, false, relaxed, true))
-		sr := runQuery(f, opts.TimeoutS, agree, nil)
+		// (a short first attempt: what the default configurations do not decide within seconds goes to the diversified portfolio)
+		first := opts.TimeoutS
+		if first > 6 && !opts.NoRetry && !relaxed {
+			first = 6
+		}
+		sr := runQuery(f, first, agree, nil)
 		if sr.Status == "sat" && len(e.opaqueFun) > 0 {
 			sr.Status = "unknown" // a model of the weakened query proves nothing: ask again with the definitions
 		}
